@@ -24,6 +24,15 @@ CHECKS = {
     "C05": ("General back-end = n-fold symbolic derivative for every order triple <= 3 (quick) / <= 4 (thorough) and l <= 4 / 6; "
             "direct = same for all 27 low triples; points on centre / plane / axis; unsupported requests must raise; public "
             "functions incl. normalisation, spherical, mixed, transform.", SX, "5 C05"),
+    "C06": ("All of density.py executed on a symbolic jet table: Leibniz expansion for all 125 order triples, gradient / Laplacian / "
+            "Hessian (symmetric, trace = Laplacian), kinetic-energy densities, threshold rule by path exploration with symbolic "
+            "threshold, PSD non-negativity, argument forwarding; end-to-end cases on the real evaluation code.", SX + " + path exploration", "5 C06"),
+    "C14": ("electrostatic_potential on symbolic point-charge integrals: value and distance mask for every mask pattern with symbolic "
+            "threshold and charges of either sign, square / rectangular transforms; concrete on-nucleus inputs; end-to-end on the real "
+            "point-charge code.", SX + " + path exploration", "5 C14"),
+    "C15": ("stress_tensor.py + density.py on the symbolic jet table with symbolic alpha, beta (special values as paths): stress tensor = "
+            "documented expression and symmetric, force = -div of the reference tensor, Hessian = Jacobian of the reference force, "
+            "symmetric option.", SX + " + path exploration", "5 C15"),
     "C07": ("Moment block = closed form for every (la,lb) and order triple within bounds, order axis, overlap at order 0, "
             "binomial origin shift (code vs code).", SX, "5 C07"),
     "C08": ("Momentum / angular-momentum blocks = closed forms for every ordered pair; public matrices equal the reference for "
